@@ -29,6 +29,9 @@ LEVEL_NOTE = ("pre-emption granularity is the source line of ellipticcurve.py / 
               "instruction inside the publishing functions in instr mode); SimLock replaces threading.Lock only; "
               "interleavings inside C builtins or a single bytecode are out of reach")
 RUNS = {"quick": 24000, "thorough": 600000}
+# the first chunks of the thorough tier hold the systematic NIST256p sweeps (a quarter of a second per run): the chunk
+# cap is only a second safety net behind the per-run watchdog and must not trip on a loaded machine
+CHUNK_WALL_CAP = {"quick": 900, "thorough": 14400}
 OPTIMIZED_PASS = {"quick": 1200, "thorough": 16000}   # extra runs under PYTHONOPTIMIZE=1 (assert statements removed)
 RULE = ("lock part: seeded programs for up to 2 readers + 2 writers (1-3 rounds, 0-3 yields and optional stall inside the "
         "critical section) x seeded schedule (pre-emption steps + choice list); curve part: 2-3 thread programs over "
